@@ -6,7 +6,29 @@
    [spray_run c spray_init h] runs a history [h] of events, each paired with the oracle (the senders
    SenderForBundle picked - Go map order - validated by a guard, never predicted); it is [None] when
    the observation is not one the model allows.  The theorems hold for every L, every history and
-   every oracle. *)
+   every oracle.
+
+   Lives of a bundle.  The node remembers a bundle only while the store knows it: a duplicate of a
+   stored bundle is dropped by Core.receive before the algorithm hears of it ([SeCreate] on a stored
+   bundle is a no-op), but a bundle that has left the store (delivered to its destination) and is
+   received again - e.g. a bundle of ours coming back from a neighbour - is a new bundle to the
+   node, and NotifyNewBundle initialises its metadata afresh, with the full budget and, since fix
+   772c5cf, the node it came from in the sent list.  The budget theorems are therefore stated per
+   life: [spray_life c spray_init [] h = Some (s, outs)] runs the history like [spray_run] and
+   yields in [outs] the transmissions since the bundle last entered the store (C18_life: same
+   final state, [outs] is the tail of all transmissions; for a history with one create event it
+   *is* [spray_run], so the statements below are the former ones there).  Across lives the budget
+   is not kept - C18_budget_across_lives shows the count exceeding L-1; the implementation has
+   nowhere to remember it (reported as a finding, not repaired here).
+
+   Changed with fix 772c5cf (SprayAndWait records the previous node of an own bundle):
+     * C18_budget / C18_accounting / C18_sent_list need [hist_wf] (the bundle is not received from
+       its own destination node), as the binary theorems always did: the recorded previous node is
+       in [sent], so a failed direct delivery *to it* is given back as a copy although none was
+       taken.  C18_budget_needs_wf shows the budget exceeded without the hypothesis.
+     * the budget is counted in copies handed over (remaining + handed over = L), not in the
+       length of the sent list: the recorded previous node is excluded from the selection without
+       having consumed a copy (C18_sent_list, C18_example_comeback). *)
 From DTN Require Import Base SpecSpray Spray SprayProofs ConstsOkSpray.
 Open Scope N_scope.
 
@@ -14,24 +36,56 @@ Open Scope N_scope.
 
 (* Budget: for a bundle originated at this node with budget L the number of successful transmissions
    to peers other than the destination never exceeds L-1 - any number and order of peer
-   appearances / disappearances, links starting and stopping to fail, retries, GC. *)
+   appearances / disappearances, links starting and stopping to fail, retries, GC, duplicates
+   received while the bundle is stored, and the bundle coming back from a neighbour (with or
+   without a PreviousNodeBlock) after it left the store. *)
 Theorem C18_budget : forall L h s outs,
-  spray_run (vconf L) spray_init h = Some (s, outs) ->
-  hist_originated h = true ->
+  spray_life (vconf L) spray_init [] h = Some (s, outs) ->
+  hist_originated h = true -> hist_wf h = true ->
   spray_relayed (ss_dst s) outs <= L - 1.
 Proof. exact spray_budget. Qed.
 Print Assumptions C18_budget.
+
+(* [spray_life] is [spray_run] with the transmissions cut at the last entry into the store ... *)
+Theorem C18_life : forall c h s acc,
+  (forall s' cur, spray_life c s acc h = Some (s', cur) ->
+     exists o pre, spray_run c s h = Some (s', o) /\ acc ++ o = pre ++ cur)
+  /\ (forall s' o, spray_run c s h = Some (s', o) -> exists cur, spray_life c s acc h = Some (s', cur)).
+Proof. intros c h s acc. split; [apply life_run | intros s' o; apply run_life]. Qed.
+Print Assumptions C18_life.
+
+(* ... and for a bundle that enters the store once it is [spray_run]: the theorems of this file
+   then speak about all transmissions of the history, as they did before re-creation was modelled *)
+Theorem C18_life_single_create : forall c h,
+  hist_once h = true -> spray_life c spray_init [] h = spray_run c spray_init h.
+Proof. exact life_run_once. Qed.
+Print Assumptions C18_life_single_create.
 
 (* Never leaked, never inflated: whenever metadata exists, remaining copies + copies handed over
    successfully = L exactly (so every failed transmission, also a failed direct delivery, left the
    budget unchanged), and at least one copy is always kept (L > 0). *)
 Theorem C18_accounting : forall L h s outs m,
-  spray_run (vconf L) spray_init h = Some (s, outs) ->
-  hist_originated h = true ->
+  spray_life (vconf L) spray_init [] h = Some (s, outs) ->
+  hist_originated h = true -> hist_wf h = true ->
   ss_meta s = Some m ->
   sm_rem m + spray_relayed (ss_dst s) outs = L /\ 1 <= sm_rem m + (if L =? 0 then 1 else 0).
 Proof. exact spray_accounting. Qed.
 Print Assumptions C18_accounting.
+
+(* What the sent list is (new with fix 772c5cf): the peers a copy was handed to in this life and at
+   most one further node [excl] - the previous node of a bundle that was received - which is
+   excluded from the selection like them but, by C18_accounting, has not been paid for:
+   |sent| = handed over + |excl|, remaining + handed over = L. *)
+Theorem C18_sent_list : forall L h s outs m,
+  spray_life (vconf L) spray_init [] h = Some (s, outs) ->
+  hist_originated h = true -> hist_wf h = true ->
+  ss_meta s = Some m ->
+  exists excl, nlen excl <= 1
+    /\ (forall x, In x excl -> ~ In x (relay_nodes (ss_dst s) outs))
+    /\ (forall x, In x (sm_sent m) <-> In x (relay_nodes (ss_dst s) outs) \/ In x excl)
+    /\ nlen (sm_sent m) = spray_relayed (ss_dst s) outs + nlen excl.
+Proof. exact spray_sent_list. Qed.
+Print Assumptions C18_sent_list.
 
 (* Give-back, one forwarding pass (any bundle, also a received one, in any state satisfying the
    structural invariant [sinv] that every reachable state has - C18_reachable): the copies taken
@@ -104,10 +158,11 @@ Proof.
 Qed.
 Print Assumptions C18_binary_single_copy.
 
-(* over every history: copies kept + copies handed over successfully = copies the bundle started
-   with (the announced value of a received bundle, L for a bundle without the block) *)
+(* over every history: copies kept + copies handed over successfully (since the bundle entered the
+   store) = copies the bundle started with (the announced value of a received bundle, L for a
+   bundle without the block) *)
 Theorem C18_binary_conservation : forall L h s outs m,
-  spray_run (bconf L) spray_init h = Some (s, outs) -> hist_wf h = true -> ss_meta s = Some m ->
+  spray_life (bconf L) spray_init [] h = Some (s, outs) -> hist_wf h = true -> ss_meta s = Some m ->
   sm_rem m + bspray_handed (ss_dst s) outs = spray_initial L s.
 Proof. exact bspray_conservation. Qed.
 Print Assumptions C18_binary_conservation.
@@ -162,6 +217,59 @@ Example C18_example_budget :
   match spray_run (vconf 3) spray_init h with
   | Some (s, outs) => spray_relayed 1 outs = 2 /\ ss_meta s = Some {| sm_rem := 1; sm_sent := [3; 4] |}
                       /\ hist_originated h = true
+  | None => False
+  end.
+Proof. vm_compute. repeat split. Qed.
+
+(* fix 772c5cf.  L = 3: a bundle of ours comes back from node 2.  Node 2 is in the sent list and is
+   never offered the bundle, yet it has not used up a copy: nodes 3 and 4 are served (L-1 = 2
+   relays), node 5 is refused; remaining 1 + handed over 2 = L although the sent list has 3 entries *)
+Example C18_example_comeback :
+  let h := [ (SePeerUp 10 2 false, []); (SeCreate true 1 None (Some 2), []);
+             (SePeerUp 11 3 false, [11]); (SePeerUp 12 4 false, [12]); (SePeerUp 13 5 false, []) ] in
+  match spray_life (vconf 3) spray_init [] h with
+  | Some (s, outs) => spray_relayed 1 outs = 2 /\ ss_meta s = Some {| sm_rem := 1; sm_sent := [2; 3; 4] |}
+                      /\ hist_originated h = true /\ hist_wf h = true /\ hist_once h = true
+  | None => False
+  end.
+Proof. vm_compute. repeat split. Qed.
+
+(* ... and serving node 2 is not an observation the model allows *)
+Example C18_example_comeback_guard :
+  spray_run (vconf 3) spray_init [ (SePeerUp 10 2 false, []); (SeCreate true 1 None (Some 2), [10]) ] = None.
+Proof. vm_compute. reflexivity. Qed.
+
+(* Lives.  L = 2: the bundle is sprayed to node 2, delivered to its destination (node 1) and thereby
+   leaves the store; a duplicate arriving while it was stored changed nothing.  It then comes back
+   from node 4: a new life with the full budget - node 2, still connected, is served a second
+   time, node 4 is excluded when it appears, node 3 is refused (wait phase).  Each life keeps its
+   budget (1 relay); over both lives 2 > L-1 transmissions went to relays - the node cannot know:
+   the store has deleted the bundle and the metadata is overwritten (GC or not). *)
+Example C18_budget_across_lives :
+  let h := [ (SeCreate true 1 None None, []); (SePeerUp 10 2 false, [10]);
+             (SeCreate true 1 None (Some 5), []);                          (* duplicate of a stored bundle: dropped *)
+             (SePeerUp 11 1 false, []); (SePeerDown 11, []);               (* delivered: leaves the store *)
+             (SeCreate true 1 None (Some 4), [10]);                        (* comes back from node 4; node 2 is still there *)
+             (SePeerUp 12 4 false, []); (SePeerUp 13 3 false, []) ] in
+  hist_originated h = true /\ hist_wf h = true /\
+  match spray_life (vconf 2) spray_init [] h, spray_run (vconf 2) spray_init h with
+  | Some (s, cur), Some (s', all) =>
+      s = s' /\ spray_relayed 1 cur = 1 /\ spray_relayed 1 all = 2
+      /\ ss_meta s = Some {| sm_rem := 1; sm_sent := [4; 2] |}
+  | _, _ => False
+  end.
+Proof. vm_compute. repeat split. Qed.
+
+(* [hist_wf] is needed since fix 772c5cf: L = 2, a bundle of ours comes back *from its destination*
+   (node 1).  The failed direct delivery to node 1 finds node 1 in the sent list and gives back a
+   copy that was never taken: 3 copies, two relays served, 2 > L-1.  (The same quirk has always
+   existed for bundles of other nodes and is why the binary theorems assume [hist_wf].) *)
+Example C18_budget_needs_wf :
+  let h := [ (SePeerUp 10 1 true, []); (SeCreate true 1 None (Some 1), []); (SePeerDown 10, []);
+             (SePeerUp 11 2 false, [11]); (SePeerUp 12 3 false, [12]) ] in
+  hist_originated h = true /\ hist_wf h = false /\
+  match spray_life (vconf 2) spray_init [] h with
+  | Some (s, outs) => spray_relayed 1 outs = 2 /\ ss_meta s = Some {| sm_rem := 1; sm_sent := [2; 3] |}
   | None => False
   end.
 Proof. vm_compute. repeat split. Qed.
